@@ -1,11 +1,11 @@
 #!/bin/sh
-# usage: tools/seedtest.sh <patch.diff> <Cxx> [<Cxx> ...]   - applies a seeded change to /repo, runs the quick checks, reverts
+# usage: tools/seedtest.sh <patch.diff> <Cxx> [<Cxx> ...]   - applies a seeded change to /repo, runs the checks, reverts
 patch="$1"; shift
 cd /repo || exit 2
 if ! git diff --quiet; then echo "/repo has uncommitted changes"; exit 2; fi
 git apply "$patch" || { echo "patch does not apply"; exit 2; }
 for p in "$@"; do
   echo "--- $p with $(basename $(dirname $patch))"
-  ( cd /verif && ./check $p --tier ${TIER:-quick} 2>&1 | grep -E "^(VIOLATION|KNOWN-FINDING|MACHINERY|SUMMARY|  monitor|INFO)" | head -${LINES_MAX:-12} ; echo "exit=$?" )
+  ( cd /verif && ./check $p --tier ${TIER:-quick} > /tmp/seedtest.out 2>&1; code=$?; grep -E "^(VIOLATION|KNOWN-FINDING|MACHINERY|SUMMARY|  monitor)" /tmp/seedtest.out | cut -c1-220 | head -${LINES_MAX:-14}; echo "exit=$code" )
 done
 git -C /repo checkout -- . && git -C /repo clean -fdq -e target
